@@ -114,6 +114,30 @@ theorem shape_truediv (σ₀ : Val) {a b e : Expr} (ha : Shape card leaf σ₀ a
     (h : truediv a b = .ok e) : e = .frac a b ∧ Shape card leaf σ₀ e := by
   sorry
 
+/-- `shape_truediv` is false for `a = Zero()` (`Zero() / b` is `Zero()`, not a `Fraction`; `Shape` does not exclude
+`Zero()`): a counterexample -/
+theorem TrsoAux.so_shape_truediv_counterexample :
+    ¬ (∀ (card : Name → Nat) (leaf : LeafFn) (σ₀ : Val) (a b e : Expr), Shape card leaf σ₀ a → Shape card leaf σ₀ b →
+        isFrac a = false → isFrac b = false → denL card leaf a σ₀ ≠ denL card leaf b σ₀ → truediv a b = .ok e →
+        e = .frac a b ∧ Shape card leaf σ₀ e) := by
+  intro H
+  have := (H (fun _ => 1) (fun _ _ _ _ => 1) (fun _ => 0) .zero (.prob none [] []) .zero
+    (TrsoAux.so_shape_zero _) (shape_leaf _ _ _ _) rfl rfl (by simp) (by simp [truediv, isZero])).1
+  cases this
+
+/-- `a / b` for two expressions that are not fractions, not `Zero()`, and have different values -/
+theorem shape_truediv' (σ₀ : Val) {a b e : Expr} (ha : Shape card leaf σ₀ a) (hb : Shape card leaf σ₀ b)
+    (hfa : isFrac a = false) (hfb : isFrac b = false) (hz : isZero a = false ∧ isZero b = false)
+    (hne : denL card leaf a σ₀ ≠ denL card leaf b σ₀)
+    (h : truediv a b = .ok e) : e = .frac a b ∧ Shape card leaf σ₀ e := by
+  have hb1 := hb.noOne
+  have hza := hz.1
+  have he : e = .frac a b := by
+    cases a <;> cases b <;>
+      simp_all [truediv, mkFrac, isFrac, isZero, NoOne]
+  subst he
+  exact ⟨rfl, ⟨ha.noOne, hb.noOne⟩, ⟨ha.pw, hb.pw⟩, ⟨ha.chain, hb.chain⟩, ⟨ha.frac, hb.frac, hne⟩⟩
+
 /-- `a * b` for two clean expressions that are neither fractions nor `One()`: the product of their factors -/
 theorem shape_mul_nonfrac (σ₀ : Val) {a b e : Expr} (ha : Shape card leaf σ₀ a) (hb : Shape card leaf σ₀ b)
     (hca : Clean a) (hcb : Clean b) (hfa : isFrac a = false) (hfb : isFrac b = false) (h : mul a b = .ok e) :
